@@ -17,7 +17,7 @@ SUMMARY_KEYS = ["runs", "starts_compared", "scrambled_starts"]
 THOROUGH_SCALE = 4
 CRASH_IS_VIOLATION = False
 STARTERS = [["Borda"], ["Copeland"], ["KwikSort"], ["PickAPerm"], ["Borda", "Copeland", "KwikSort"], ["Pulp"],
-            ["BioConsert"], [], ["BioCo!"]]
+            ["BioConsert"], [], [], ["BioCo!"]]
 TIMEOUT = {"quick": 900, "thorough": 5400}
 
 
@@ -29,7 +29,14 @@ def plan(tier, seed):
 
 
 def gen_case(rng, ctx):
-    cls, ds = gen.dataset(rng, classes="D2 D3 D3 D4 D6 D7 D8 D9 D10 D11", nmax=8, mmax=6)
+    if rng.random() < 0.15:
+        # opposing rankings with ties + one-bucket partial rankings under cheap ties: the all-tied ranking is the best
+        # starting point (and the other starts lead to worse local optima)
+        cls, ds = gen.dataset(rng, cls="D15", n=rng.randint(3, 6), mmax=6)
+        ds = libx.normalise_raw(ds)
+        return {"ds": ds, "scheme": gen.scheme_cheap_ties(rng), "dcls": cls, "scls": "cheap-ties",
+                "libseed": rng.randrange(10 ** 6), "starters": rng.choice([[], [], [], ["BioCo!"], ["Borda"]])}
+    cls, ds = gen.dataset(rng, classes="D2 D3 D3 D4 D6 D7 D8 D9 D10 D11 D15 D15 D13", nmax=8, mmax=6)
     ds = libx.normalise_raw(ds)
     scls, sch = gen.scheme(rng, "S1 S1 S2 S3 S3 S6 S9 S10 S10 S11")
     return {"ds": ds, "scheme": sch, "dcls": cls, "scls": scls, "libseed": rng.randrange(10 ** 6),
@@ -124,6 +131,9 @@ def check_case(case, ctx):
         if stp == "ok":
             starts.append(("PickAPerm", libx.raw_ranking(cp.consensus_rankings[0])))
     scrambled = False
+    if not starters and starts and min(ref.kemeny(s, ds, sch) for _n, s in starts) == ref.kemeny([list(elems)], ds, sch) \
+            and sum(1 for _n, s in starts if ref.kemeny(s, ds, sch) == ref.kemeny([list(elems)], ds, sch)) == 1:
+        ctx.count("all_tied_is_the_strictly_best_start")
     for name, srank in starts:
         if not common.wellformed_raw(srank, elems):
             continue
@@ -148,7 +158,9 @@ def reach(counters, tier, info):
     k = 1 if tier == "quick" else 15
     out = []
     for name, key, need in [("runs whose starting ranking lists the elements in an order different from the id order",
-                             "scrambled_starts", 500 * k), ("starting points compared", "starts_compared", 1500 * k)]:
+                             "scrambled_starts", 500 * k), ("starting points compared", "starts_compared", 1500 * k),
+                            ("no-starter runs where the all-tied ranking is the strictly best starting point",
+                             "all_tied_is_the_strictly_best_start", 30 * k)]:
         v = counters.get(key, 0)
         out.append({"name": name, "observed": v, "required": need, "ok": v >= need})
     for st in STARTERS:
